@@ -645,7 +645,11 @@ func c09Reload(c *core.Ctx) {
 				continue
 			}
 			cur, prev := false, false
-			for _, arg := range call.Args {
+			operands := append([]ast.Expr{}, call.Args...)
+			if sel, ok := ast.Unparen(call.Fun).(*ast.SelectorExpr); ok && sig.Recv() != nil {
+				operands = append(operands, sel.X) // the comparison as a method of one of the specs
+			}
+			for _, arg := range operands {
 				r := c09resolve(g, arg)
 				if c09fieldOf(g, r) == specF {
 					switch x.canonRoot(g, r) {
